@@ -142,9 +142,9 @@ Theorem C16_tile_index_bytes : forall idx, Forall (fun p => (fst p <= u64_max /\
   tidx_from_blob (tidx_as_blob idx) = Ok idx.
 Proof. exact tidx_roundtrip. Qed.
 Print Assumptions C16_tile_index_bytes.
-(* the lookup path shifts a slot by the block's tile-data offset: the entry read is the stored one, shifted *)
+(* the lookup path shifts a slot by the block's tile-data offset (saturating at u64::MAX): the entry read is the stored one, shifted *)
 Theorem C16_tile_index_offset : forall o idx out, tidx_add_offset o idx = Ok out ->
-  forall i p, nth_error idx i = Some p -> nth_error out i = Some ((fst p + o)%N, snd p) /\ (fst p + o <= u64_max)%N.
+  forall i p, nth_error idx i = Some p -> nth_error out i = Some (N.min (fst p + o) u64_max, snd p).
 Proof. exact tidx_add_offset_nth. Qed.
 Print Assumptions C16_tile_index_offset.
 Example C16_bdef_example :
